@@ -167,10 +167,11 @@ func (server *Server) Scan(conn *redis.Conn, cursor int, opt redis.ScanOption) (
 	keys := db.Keys()
 	sort.Strings(keys)
 	matchKeys := proto.NewArray()
-	lastCursor := 0
+	// The cursor is the number of the sorted keys which the previous calls have visited;
+	// zero starts an iteration and is returned when the iteration is complete.
+	nextCursor := 0
 	for n, key := range keys {
-		lastCursor = n
-		if 0 < cursor && n <= cursor {
+		if n < cursor {
 			continue
 		}
 		if !opt.MatchPattern.MatchString(key) {
@@ -178,14 +179,15 @@ func (server *Server) Scan(conn *redis.Conn, cursor int, opt redis.ScanOption) (
 		}
 		matchKeys.Append(redis.NewBulkMessage(key))
 		if opt.Count <= matchKeys.Size() {
+			nextCursor = n + 1
 			break
 		}
 	}
-	if lastCursor == len(keys) {
-		lastCursor = 0
+	if len(keys) <= nextCursor {
+		nextCursor = 0
 	}
 	array := proto.NewArray()
-	array.Append(redis.NewBulkMessage(strconv.Itoa(lastCursor)))
+	array.Append(redis.NewBulkMessage(strconv.Itoa(nextCursor)))
 	array.Append(redis.NewArrayMessageWithArray(matchKeys))
 	return proto.NewMessageWithType(proto.ArrayMessage).SetArray(array), nil
 }
